@@ -219,21 +219,25 @@ Definition parse_notify (data : bytes) : M pbody :=
   | _ => raise ValueError
   end.
 
-(** PayloadDELETE.parse: `for i in range(0, num_spis)` with unchecked slices *)
-Fixpoint delete_spis (n : nat) (data : bytes) (off size : nat) : M (list bytes) :=
+(** PayloadDELETE.parse: `for i in range(0, num_spis)` with unchecked slices.  The offset is kept in binary
+    (it can reach 65535 * 255); data[off:off+size] is empty as soon as off >= len(data). *)
+Definition slice_N (data : bytes) (off size : N) : bytes :=
+  if (N.of_nat (length data) <=? off)%N then [] else slice data (N.to_nat off) (N.to_nat (off + size)).
+
+Fixpoint delete_spis (n : nat) (data : bytes) (off size : N) : M (list bytes) :=
   match n with
   | O => ret []
   | S n' =>
       tick ;;;
-      rest <- delete_spis n' data (off + size) size ;;
-      ret (slice data off (off + size) :: rest)
+      rest <- delete_spis n' data (off + size)%N size ;;
+      ret (slice_N data off size :: rest)
   end.
 
 Definition parse_delete (data : bytes) : M pbody :=
   vs <- except_raise (unpack_from fmt_PayloadDELETE_parse_0 data 0) StructError InvalidSyntax ;;
   match vs with
   | [VN protocol_id; VN spi_size; VN num_spis] =>
-      spis <- delete_spis (N.to_nat num_spis) data 4 (N.to_nat spi_size) ;;
+      spis <- delete_spis (N.to_nat num_spis) data 4%N spi_size ;;
       ret (B_DELETE protocol_id spis)
   | _ => raise ValueError
   end.
@@ -503,7 +507,7 @@ Section WithPrimitives.
 
   Definition decode (c : option crypto) (header_only : bool) (data : bytes) : res message :=
     fst (decode_m c header_only data).
-  Definition iterations (c : option crypto) (header_only : bool) (data : bytes) : nat :=
+  Definition iterations (c : option crypto) (header_only : bool) (data : bytes) : N :=
     snd (decode_m c header_only data).
   Definition encode (c : option crypto) (m : message) : res bytes := fst (encode_m c m).
 End WithPrimitives.
